@@ -61,9 +61,9 @@ struct RegisterTableOps
 {
     RegisterTableOps()
     {
-        World::register_op("pl_update", op_pl_update); World::register_op("pl_add", op_pl_add); World::register_op("pl_remove", op_pl_remove);
-        World::register_op("pe_add_back", op_pe_add_back); World::register_op("pe_remove", op_pe_remove); World::register_op("pe_clear", op_pe_clear);
-        World::register_op("tt_update", op_tt_update); World::register_op("tt_add", op_tt_add); World::register_op("tt_remove", op_tt_remove);
+        World::register_op("t14_pl_update", op_pl_update); World::register_op("t14_pl_add", op_pl_add); World::register_op("t14_pl_remove", op_pl_remove);
+        World::register_op("t14_pe_add_back", op_pe_add_back); World::register_op("t14_pe_remove", op_pe_remove); World::register_op("t14_pe_clear", op_pe_clear);
+        World::register_op("t14_tt_update", op_tt_update); World::register_op("t14_tt_add", op_tt_add); World::register_op("t14_tt_remove", op_tt_remove);
     }
 } register_table_ops;
 
@@ -139,41 +139,41 @@ struct Dom : CompositeBase
             for (int c : lc)
             {
                 // re-order: to the end, and in front of every sibling (the sibling becomes the successor); move under every other live crate and to the root
-                ops.push_back(Op{"pl_update", {c, 0, -1}, {}});
+                ops.push_back(Op{"t14_pl_update", {c, 0, -1}, {}});
                 for (int d : lc)
                 {
                     if (d == c) continue;
                     if (m.c[d].parent == m.c[c].parent)
                     {
-                        ops.push_back(Op{"pl_update", {c, 0, d}, {}});
+                        ops.push_back(Op{"t14_pl_update", {c, 0, d}, {}});
                         std::string nd;
                         try { nd = w.crates.at((size_t)d).name(); } catch (...) {}
-                        if (!nd.empty()) ops.push_back(Op{"pl_update", {c, 3, d}, {nd}});  // re-order and take the sibling's title: the last statement fails by itself
+                        if (!nd.empty()) ops.push_back(Op{"t14_pl_update", {c, 3, d}, {nd}});  // re-order and take the sibling's title: the last statement fails by itself
                     }
-                    else if (!m.below(d, c)) ops.push_back(Op{"pl_update", {c, 1, d}, {}});
+                    else if (!m.below(d, c)) ops.push_back(Op{"t14_pl_update", {c, 1, d}, {}});
                 }
-                if (m.c[c].parent >= 0) ops.push_back(Op{"pl_update", {c, 1, -1}, {}});
-                ops.push_back(Op{"pl_update", {c, 2, -1}, {"renamed at table level"}});
-                ops.push_back(Op{"pl_remove", {c}, {}});
-                ops.push_back(Op{"pl_add", {c, -1}, {"table child"}});
-                ops.push_back(Op{"pe_clear", {c}, {}});
+                if (m.c[c].parent >= 0) ops.push_back(Op{"t14_pl_update", {c, 1, -1}, {}});
+                ops.push_back(Op{"t14_pl_update", {c, 2, -1}, {"renamed at table level"}});
+                ops.push_back(Op{"t14_pl_remove", {c}, {}});
+                ops.push_back(Op{"t14_pl_add", {c, -1}, {"table child"}});
+                ops.push_back(Op{"t14_pe_clear", {c}, {}});
                 for (int t : lt)
                 {
-                    ops.push_back(Op{"pe_add_back", {c, t, 0}, {}});
-                    ops.push_back(Op{"pe_add_back", {c, t, 1}, {}});
-                    ops.push_back(Op{"pe_remove", {c, t}, {}});
+                    ops.push_back(Op{"t14_pe_add_back", {c, t, 0}, {}});
+                    ops.push_back(Op{"t14_pe_add_back", {c, t, 1}, {}});
+                    ops.push_back(Op{"t14_pe_remove", {c, t}, {}});
                 }
             }
-            ops.push_back(Op{"pl_add", {-1, -1}, {"table root"}});
-            if (!lc.empty()) ops.push_back(Op{"pl_add", {m.c[lc[0]].parent, lc[0]}, {"table before"}});
+            ops.push_back(Op{"t14_pl_add", {-1, -1}, {"table root"}});
+            if (!lc.empty()) ops.push_back(Op{"t14_pl_add", {m.c[lc[0]].parent, lc[0]}, {"table before"}});
             for (int t : lt)
             {
-                ops.push_back(Op{"tt_update", {t, -1}, {}});
+                ops.push_back(Op{"t14_tt_update", {t, -1}, {}});
                 for (int u : lt)
-                    if (u != t) { ops.push_back(Op{"tt_update", {t, u}, {}}); break; }
-                ops.push_back(Op{"tt_add", {t, 0}, {}});
-                ops.push_back(Op{"tt_add", {t, 1}, {}});
-                ops.push_back(Op{"tt_remove", {t}, {}});
+                    if (u != t) { ops.push_back(Op{"t14_tt_update", {t, u}, {}}); break; }
+                ops.push_back(Op{"t14_tt_add", {t, 0}, {}});
+                ops.push_back(Op{"t14_tt_add", {t, 1}, {}});
+                ops.push_back(Op{"t14_tt_remove", {t}, {}});
             }
         }
         return ops;
@@ -182,15 +182,15 @@ struct Dom : CompositeBase
     {
         if (op.f == "set") return "set_" + op.s[0];
         if (op.f == "set_slot") return "set_" + op.s[0];
-        if (op.f == "pl_update") return std::string("table.playlist.update.") + (op.i[1] == 0 ? "reorder" : op.i[1] == 1 ? "move" : op.i[1] == 2 ? "rename" : "reorder_rename");
-        if (op.f == "pl_add") return "table.playlist.add";
-        if (op.f == "pl_remove") return "table.playlist.remove";
-        if (op.f == "pe_add_back") return "table.playlist_entity.add_back";
-        if (op.f == "pe_remove") return "table.playlist_entity.remove";
-        if (op.f == "pe_clear") return "table.playlist_entity.clear";
-        if (op.f == "tt_update") return "table.track.update";
-        if (op.f == "tt_add") return "table.track.add";
-        if (op.f == "tt_remove") return "table.track.remove";
+        if (op.f == "t14_pl_update") return std::string("table.playlist.update.") + (op.i[1] == 0 ? "reorder" : op.i[1] == 1 ? "move" : op.i[1] == 2 ? "rename" : "reorder_rename");
+        if (op.f == "t14_pl_add") return "table.playlist.add";
+        if (op.f == "t14_pl_remove") return "table.playlist.remove";
+        if (op.f == "t14_pe_add_back") return "table.playlist_entity.add_back";
+        if (op.f == "t14_pe_remove") return "table.playlist_entity.remove";
+        if (op.f == "t14_pe_clear") return "table.playlist_entity.clear";
+        if (op.f == "t14_tt_update") return "table.track.update";
+        if (op.f == "t14_tt_add") return "table.track.add";
+        if (op.f == "t14_tt_remove") return "table.track.remove";
         return op.f;
     }
     static void visit(World& w, Model& m, const std::string& cid, Agg& a)
